@@ -67,6 +67,35 @@ let run_val (id : string) (fields : t list) : string =
        | r -> Printf.sprintf "%s unm=ok res=%s" id (res_tag r))
   | r -> Printf.sprintf "%s unm=%s" id (res_tag r)
 
+(* family marshal: a Schema value -> MarshalJSON, and the order formula of the property
+   (specification side) for every subschema that has properties, keyed by location *)
+let compare_str (a : M.str) (b : M.str) : int =
+  match M.str_cmp a b with M.Eq -> 0 | M.Lt -> -1 | M.Gt -> 1
+
+let path_to_string (p : M.seg list) : string =
+  String.concat "" (List.map (function M.SKey k -> "/" ^ ints_of_str k | M.SIdx i -> "/#" ^ string_of_int (int_of_nat i)) p)
+
+let formula_keys (s : M.schema) : string option =
+  match s.M.s_properties with
+  | None -> None
+  | Some props ->
+      let names = List.map fst props in
+      let order = match s.M.s_propertyOrder with Some o -> o | None -> [] in
+      let listed = List.filter (fun n -> List.mem n names) order in
+      let rest = List.sort compare_str (List.filter (fun n -> not (List.mem n listed)) names) in
+      Some (String.concat "|" (List.map ints_of_str (listed @ rest)))
+
+let spec_orders (s : M.schema) : string =
+  let entries = List.filter_map (fun (p, c) ->
+    match formula_keys c with Some ks -> Some (path_to_string p ^ "=" ^ ks) | None -> None) (M.all_sub s) in
+  String.concat ";" (List.sort compare entries)
+
+let run_marshal (id : string) (fields : t list) : string =
+  let s = Schema_conv.schema_of_sexp (field1 "schema" fields) in
+  match M.marshal s with
+  | M.Ok d -> Printf.sprintf "%s out=ok doc=%s spec_order=%s" id (jdoc_to_string d) (spec_orders s)
+  | r -> Printf.sprintf "%s out=%s" id (res_tag r)
+
 let () =
   let family = Sys.argv.(1) in
   let ic = open_in Sys.argv.(2) in
@@ -80,6 +109,7 @@ let () =
             | A "case" :: A id :: fields ->
                 (match family with
                  | "val" -> run_val id fields
+                 | "marshal" -> run_marshal id fields
                  | f -> failwith ("unknown family " ^ f))
             | _ -> failwith "case expected"
           with Failure m -> "DRIVER-ERROR " ^ m
